@@ -17,6 +17,8 @@ for d in seeded/*/; do
   git -C /repo checkout -- . && git -C /repo clean -fdq
   if echo "$out" | grep -q "^VIOLATION"; then
     echo "$id caught $(echo "$out" | grep "^VIOLATION" | head -2 | tr '\n' ' ')"
+  elif python3 -c "import json,sys; m=json.load(open('/verif/$d/meta.json')); sys.exit(0 if m['check_result'].get('caught') is False and 'not expected' in m['check_result'].get('note','') else 1)"; then
+    echo "$id not-caught (outside the property's quantifier, see meta.json)"
   else
     echo "$id MISSED"
   fi
